@@ -612,3 +612,28 @@ def conc(x, model):
     if isinstance(x, dict):
         return {k: conc(v, model) for k, v in x.items()}
     return x
+
+
+def conc_copy(x, model):
+    """like conc but builds a new structure and leaves x (and the proxies inside) untouched"""
+    import ast as _ast
+    if isinstance(x, SymStr):
+        return x.ev(model)
+    ev = getattr(x, "ev", None)
+    if ev is not None and not isinstance(x, type):
+        return ev(model)
+    if isinstance(x, _ast.AST):
+        n = type(x)()
+        for k, v in vars(x).items():
+            setattr(n, k, conc_copy(v, model))
+        return n
+    if isinstance(x, list):
+        return [conc_copy(i, model) for i in x]
+    if isinstance(x, tuple):
+        vals = [conc_copy(i, model) for i in x]
+        if hasattr(x, "_fields"):
+            return type(x)(*vals)
+        return tuple(vals)
+    if isinstance(x, dict):
+        return {k: conc_copy(v, model) for k, v in x.items()}
+    return x
